@@ -220,6 +220,7 @@ fn pick_type(k: u64, rng: &mut Rng) -> Type {
         2 => array_type(vec![1 + rng.below(70)], BIT),
         3 => array_type(vec![1 + rng.below(5), 1 + rng.below(5)], BIT),
         4 => random_type(rng, 2),
+        5 if (k / 8) % 4 == 0 => vector_type(2 + rng.below(3), if rng.chance(1, 2) { scalar_type(*rng.pick(&[UINT64, INT64, UINT128, INT128])) } else { array_type(vec![1 + rng.below(3)], *rng.pick(&[UINT32, UINT64, INT128])) }),
         5 if (k / 8) % 2 == 0 => vector_type(rng.below(4), random_type(rng, 1)),
         5 => named_tuple_type(vec![("key".to_string(), random_type(rng, 1)), ("val".to_string(), array_type(random_shape(rng), *rng.pick(&ALL_ST))), ("n".to_string(), scalar_type(*rng.pick(&ALL_ST)))]),
         6 => tuple_type(vec![random_type(rng, 1), array_type(vec![1 + rng.below(20)], BIT), random_type(rng, 2)]),
@@ -239,6 +240,22 @@ fn triple(t: &Type) -> Type {
 }
 fn slots(tv: &TypedValue) -> Vec<Value> {
     tv.value.to_vector().unwrap()
+}
+
+/// does some vector of >= 2 elements of at least 64 bits inside the value hold the same element
+/// everywhere?  (for a uniformly drawn mask this has probability <= 2^-64)
+pub fn repeats_across_vector(v: &Value, t: &Type) -> bool {
+    match t {
+        Type::Vector(n, et) => {
+            let ch = match v.to_vector() { Ok(c) => c, Err(_) => return false };
+            let bits = get_size_in_bits((**et).clone()).unwrap_or(0);
+            if *n >= 2 && bits >= 64 && ch.len() >= 2 && ch.iter().all(|c| *c == ch[0]) { return true; }
+            ch.iter().any(|c| repeats_across_vector(c, et))
+        }
+        Type::Tuple(ts) => match v.to_vector() { Ok(ch) => ch.iter().zip(ts.iter()).any(|(c, ct)| repeats_across_vector(c, ct)), Err(_) => false },
+        Type::NamedTuple(ts) => match v.to_vector() { Ok(ch) => ch.iter().zip(ts.iter()).any(|(c, (_, ct))| repeats_across_vector(c, ct)), Err(_) => false },
+        _ => false,
+    }
 }
 
 // ------------------------------------------------------------------------------------ main
@@ -308,6 +325,12 @@ pub fn run(tier: &str, seed: u64, out: &mut Out) {
         // the first two shares are the first two PRNG draws (what lets the model reproduce share 2)
         if shares.len() != 3 || shares[0] != d[0] || shares[1] != d[1] || sh.t != triple(&t) {
             out.violation("shares-not-prng-draws", input.clone(), "shares 0,1 are not the first two draws of the seeded PRNG, or wrong tuple type".into());
+        } else {
+            out.oracle_ok();
+        }
+        // the masks are drawn independently for every leaf of the type
+        if repeats_across_vector(&shares[0], &t) || repeats_across_vector(&shares[1], &t) {
+            out.violation("share-mask-repeats-across-vector-elements", input.clone(), "a mask share holds the same value in every element of a vector: the elements' masks are not independent, one party's shares reveal differences of the secret's elements".into());
         } else {
             out.oracle_ok();
         }
